@@ -47,11 +47,8 @@ def net_case(torch, seed, mode):
     if rng.random() < 0.3:
         spec = ga.add_output_head(spec, rng)
     o = {'seed': seed, 'mode': mode, 'arch': ga.describe(spec) + ' out=%s' % spec['out'], 'spec': spec, 'skip': None, 'layers': {}, 'fails': []}
-    if ga.has_dw_after_cat(spec) or ga.has_add_of_cat(spec):
-        # two topologies whose feature bookkeeping is decided by C09 (a depthwise conv fed by a concat gets no
-        # masker; an add with a concat operand puts a masker on a tensor whose width is fixed elsewhere)
-        o['skip'] = 'dw-after-cat' if ga.has_dw_after_cat(spec) else 'add-of-cat'
-        return o
+    # topologies that crashed before the C09 repairs (now frozen maskers): kept in the stream, counted
+    o['topology'] = 'dw-after-cat' if ga.has_dw_after_cat(spec) else 'add-of-cat' if ga.has_add_of_cat(spec) else 'plain'
     try:
         m = ga.build(spec, seed=seed)
         xs = ga.example_input(spec, torch, seed)
@@ -164,6 +161,7 @@ def run(ctx):
                  sample={'arch': o['arch'], 'mode': o['mode'], 'layers': {k: v.get('summary') for k, v in o['layers'].items()}} if o['seed'] % 17 == 0 else None)
         for prod in o['spec'].get('productions', []):
             ctx.dist['prod:' + prod] += 1
+        ctx.dist['topology:' + o.get('topology', 'plain')] += 1
         for key, info in o['fails']:
             fails.append(('net:' + key, {'seed': o['seed'], 'mode': o['mode'], 'arch': o['arch']}, {'detail': info, 'trace': o.get('trace')}))
     ctx.extra['networks'] = len(nets) - skipped
